@@ -948,3 +948,155 @@ func (fg *FlowGraph) LocOfOuter(n ast.Node) Loc {
 // LocOfRange returns the location of a range statement's operand (go/cfg
 // evaluates it in the block that precedes the loop header).
 func (fg *FlowGraph) LocOfRange(rs *ast.RangeStmt) Loc { return fg.LocOfOuter(rs.X) }
+
+// ---------------------------------------------------------------------------
+// XFlow: a flow graph extended, one level deep, by the bodies of helpers that
+// the host calls (a step of a protocol extracted into a method is still a step
+// of the protocol). Events are found in the host and in the helpers; dominance
+// between them is decided from the host's graph, the helper's graph, and
+// whether an event inside a helper happens on every normal completion of it.
+
+type xHelper struct {
+	fi    *FuncInfo
+	fg    *FlowGraph
+	sites []Loc // call sites in the host
+}
+
+type XLoc struct {
+	Outer Loc      // location in the host (for an inner event: the call site of the helper)
+	Inner Loc      // location in the helper, valid iff H != nil
+	H     *xHelper // nil for an event of the host itself
+	N     ast.Node
+}
+
+func (l XLoc) Valid() bool { return l.Outer.Valid() }
+func (l XLoc) Pos() token.Pos {
+	if l.N != nil {
+		return l.N.Pos()
+	}
+	return token.NoPos
+}
+
+type XFlow struct {
+	c       *Ctx
+	info    *types.Info
+	Host    *FlowGraph
+	helpers []*xHelper
+}
+
+func newXFlow(c *Ctx, info *types.Info, host *ast.BlockStmt, isHelper func(*types.Func) bool) *XFlow {
+	x := &XFlow{c: c, info: info, Host: newFlowGraph(info, host)}
+	byFn := map[*types.Func]*xHelper{}
+	for _, l := range x.Host.Find(func(n ast.Node) bool { _, ok := n.(*ast.CallExpr); return ok }) {
+		f := callee(info, l.Node.(*ast.CallExpr))
+		if f == nil || !isHelper(f) {
+			continue
+		}
+		h := byFn[f]
+		if h == nil {
+			fi := c.FuncOf(f)
+			if fi == nil {
+				continue
+			}
+			h = &xHelper{fi: fi, fg: newFlowGraph(fi.Info(), fi.Decl.Body)}
+			byFn[f] = h
+			x.helpers = append(x.helpers, h)
+		}
+		h.sites = append(h.sites, l)
+	}
+	return x
+}
+
+// Find returns the events matching pred in the host and, per call site, in the helpers.
+func (x *XFlow) Find(pred func(ast.Node) bool) []XLoc {
+	var out []XLoc
+	for _, l := range x.Host.Find(pred) {
+		out = append(out, XLoc{Outer: l, N: l.Node})
+	}
+	for _, h := range x.helpers {
+		for _, il := range h.fg.Find(pred) {
+			for _, s := range h.sites {
+				out = append(out, XLoc{Outer: s, Inner: il, H: h, N: il.Node})
+			}
+		}
+	}
+	sort.SliceStable(out, func(i, j int) bool {
+		if out[i].Outer.Node.Pos() != out[j].Outer.Node.Pos() {
+			return out[i].Outer.Node.Pos() < out[j].Outer.Node.Pos()
+		}
+		return out[i].Pos() < out[j].Pos()
+	})
+	return out
+}
+
+// mustHappen: the inner event lies on every path from the helper's entry to a normal completion.
+func (x *XFlow) mustHappen(l XLoc) bool {
+	h := l.H
+	skip, _ := h.fg.Reach(PathQuery{
+		Target: func(t Loc) bool {
+			r, ok := t.Node.(*ast.ReturnStmt)
+			return ok && !definiteErrorReturn(h.fg, h.fi.Info(), h.fi, r)
+		},
+		Avoid: func(t Loc) bool { return t.Block == l.Inner.Block && t.Idx == l.Inner.Idx },
+	})
+	if skip {
+		return false
+	}
+	// falling off the end
+	for _, b := range h.fg.G.Blocks {
+		if h.fg.Reachable(b) && len(b.Succs) == 0 && (len(b.Nodes) == 0 || !isReturn(b.Nodes[len(b.Nodes)-1])) {
+			if ok, _ := reachBlockAvoiding(h.fg, b, func(t Loc) bool { return t.Block == l.Inner.Block && t.Idx == l.Inner.Idx }, func(*cfg.Block, int) bool { return false }); ok {
+				return false
+			}
+		}
+	}
+	return true
+}
+
+// Dominates: whenever b executes, a has executed before.
+func (x *XFlow) Dominates(a, b XLoc) bool {
+	switch {
+	case a.H == nil && b.H == nil:
+		return x.Host.Dominates(a.Outer, b.Outer)
+	case a.H == nil:
+		return x.Host.Dominates(a.Outer, b.Outer) && !(a.Outer.Block == b.Outer.Block && a.Outer.Idx == b.Outer.Idx)
+	case b.H == nil:
+		if a.Outer.Block == b.Outer.Block && a.Outer.Idx == b.Outer.Idx {
+			return false
+		}
+		return x.Host.Dominates(a.Outer, b.Outer) && x.mustHappen(a)
+	case a.H == b.H && a.Outer.Block == b.Outer.Block && a.Outer.Idx == b.Outer.Idx:
+		return a.H.fg.Dominates(a.Inner, b.Inner)
+	default:
+		if a.Outer.Block == b.Outer.Block && a.Outer.Idx == b.Outer.Idx {
+			return false
+		}
+		return x.Host.Dominates(a.Outer, b.Outer) && x.mustHappen(a)
+	}
+}
+
+// resolveLocal: an identifier with exactly one definition in body stands for that definition's expression.
+func resolveLocal(info *types.Info, body ast.Node, e ast.Expr) ast.Expr {
+	id, ok := ast.Unparen(e).(*ast.Ident)
+	if !ok || body == nil {
+		return e
+	}
+	obj := info.ObjectOf(id)
+	var def ast.Expr
+	n := 0
+	ast.Inspect(body, func(x ast.Node) bool {
+		if as, ok := x.(*ast.AssignStmt); ok && len(as.Lhs) == len(as.Rhs) {
+			for i, l := range as.Lhs {
+				if lid, ok := ast.Unparen(l).(*ast.Ident); ok && info.ObjectOf(lid) == obj {
+					n++
+					def = as.Rhs[i]
+				}
+			}
+		}
+		return true
+	})
+	if n == 1 && def != nil {
+		return def
+	}
+	return e
+}
